@@ -395,6 +395,16 @@ def run_case(case):
             stats.setdefault("unrelated", []).append(first["exc_s"][:100])
     if mon.pool_detached:
         w.violation(PROP, "O4.pool_lost", f"config.pool differs after save of {mon.pool_detached[0]}", **keys0)
+    if first["completed"] and case.get("save_every"):
+        # the checkpoints of a completed run sit under their documented names <output_dir>/<label>_<iteration>.state and <label>_final.state
+        lab = case["cfg"].get("output_label", "ps")
+        n_it = first["inc"].n_commits
+        want = [f"/simfs/out/{lab}_{i}.state" for i in range(1, n_it) if i % int(case["save_every"]) == 0] + [f"/simfs/out/{lab}_final.state"]
+        have = set(w.fs.files("/simfs/out"))
+        missing = [p for p in want if p not in have]
+        if missing:
+            w.violation(PROP, "O1.documented_name_missing", f"after a completed run with save_every={case['save_every']} and output_label={lab!r} the checkpoint(s) {[m.split('/')[-1] for m in missing[:4]]} "
+                        f"do not exist (files written: {sorted(x.split('/')[-1] for x in have)[:8]})", arm=case["arm"], dotted_label="." in lab)
     if case["arm"] == "faultfree" or first["exc"] is not None:
         v = verify_files(w, mon, "faultfree", keys0, inflight_ok=False)
         merge(stats, {"ff." + k: x for k, x in v.items()})
@@ -516,6 +526,8 @@ def base_case(rnd, seed, arm):
                 progress=progress, stderr=rnd.choice(["stringio", "captured"]) if progress else "stringio",
                 extra_saves=rnd.choice([[], [], ["manual"], ["manual", "manual_again"], ["sm"], ["manual", "sm"], ["sm", "sm2"]]))
     case.update(ev)
+    if rnd.random() < 0.25:
+        case["cfg"]["output_label"] = rnd.choice(["beta0.5", "run.v1", "a-b_c"])
     if rnd.random() < 0.35:
         # "resume and extend": the resumed run asks for a different number of effective samples
         case["resume_n_total"] = rnd.choice([case["n_total"] * 2, case["n_total"] * 4, max(32, case["n_total"] // 2)])
